@@ -493,6 +493,8 @@ def run(rep, repo, tier):
     check_cost_readers(rep, repo)
     check_derived(rep, repo)
     check_import_pure(rep, repo)
+    from ..defined import check_defined
+    check_defined(rep, repo, 'C10.R7', [repo.function('import_model', required=False)], 'instance reader')
 
 
 def check_import_pure(rep, repo):
